@@ -34,6 +34,8 @@ CHECKS = {
                   probes=["addmatch_ok", "addmatch_invalid", "rmmatch_ok", "rmmatch_notfound", "broadcast_copy", "limit_rules_hit"], safety_prop="C07"),
     "C13": simbus("C13", RULE % "C13 (random subset of small limits: connections, per-user, incomplete, names, match rules, pending replies, message size; several simulated users; fill / overflow / release / refill)",
                   probes=["limit_names_hit", "limit_rules_hit", "limit_replies_hit", "limit_completed_hit", "limit_per_user_hit", "oversize_message_sent"], safety_prop="C10"),
+    "C10": simbus("C10", RULE % "C10 (1-4 byte-level hostile clients: garbage before auth, stalled handshakes, over-long lines, mutated valid messages at header offsets, limit-value length words, truncation, floods, half-sent messages, abrupt closes, many unauthenticated connections, clock advances past auth_timeout; interleaved with a well-behaved pair's round trips and a bystander subscribed to everything)",
+                  probes=["hostile_invalid_message", "hostile_closed_by_bus", "auth_timeout_fired", "listener_paused"], safety_prop="C10"),
 }
 
 # ----------------------------------------------------------------------------- MANIFEST texts
@@ -61,6 +63,23 @@ MANIFEST_TEXT = {
                "processes a message (probe H2) the model's primary owner is the only non-eavesdropping receiver, exactly once, fields and body intact, per-sender order kept, "
                "exactly one error for an undeliverable call.",
                "DESIGN.md section 4 C05, appendix B", "deterministic simulation, seeded schedule and fault search, model-based oracle on recorded history"),
+    "C07": _mt("Seeded search over histories of AddMatch/RemoveMatch (rule strings from a grammar-based generator in several quoting/escaping spellings, every key, empty values, "
+               "deliberately defective rules, the per-connection rule limit), disconnects, ownership changes and broadcasts built from the same vocabulary (string / object-path / other "
+               "arguments, missing arguments, prefixes and extensions of rule values), under chunking and short-I/O faults; an independent parser and matcher written from the "
+               "specification predict every AddMatch/RemoveMatch reply and, for each broadcast, the exact set of receiving connections (one copy each); ASan/UBSan watch the "
+               "matcher's memory accesses.",
+               "DESIGN.md section 4 C07, appendix F", "deterministic simulation, seeded history and fault search, model-based oracle + sanitizers"),
+    "C10": _mt("Seeded search over byte streams of 1-4 hostile clients (garbage before auth, stalled and abusive handshakes, over-long lines, single-site mutations of valid messages, "
+               "limit-value length words, truncation, floods, half-sent messages, abrupt closes, many unauthenticated connections, clock jumps past auth_timeout) interleaved with a "
+               "well-behaved pair and a bystander subscribed to everything; oracles: no sanitizer/assert/abort, quiescence within a step bound after faults stop (no spin), the pair's "
+               "round trips answered correctly, the bus dispatches from a hostile stream only messages the independent codec accepts and disconnects the sender of an invalid one, "
+               "incomplete-connection cap and auth_timeout enforced (bounded liveness), memory blocks and descriptors back to baseline at the end.",
+               "DESIGN.md section 4 C10", "deterministic simulation with hostile-actor fault injection, safety invariants + bounded liveness"),
+    "C13": _mt("Seeded search over histories of connect/Hello/close by several simulated users, RequestName/ReleaseName, AddMatch/RemoveMatch, outstanding calls and messages around the "
+               "size limit, with a random subset of limits configured to 1..5; white-box invariant after every bus step (registered, per-user, incomplete connections, names and "
+               "rules per connection within limits) and protocol oracle (the overflowing request earns LimitsExceeded and changes nothing, requests below the limit are unaffected, "
+               "freed capacity is reusable, an oversize message disconnects only its sender).",
+               "DESIGN.md section 4 C13", "deterministic simulation, seeded history search, invariants checked at every step + model-based oracle"),
 }
 
 NOT_APPLICABLE = [
@@ -70,6 +89,6 @@ NOT_APPLICABLE = [
 ]
 
 # properties whose check is planned but not finished: not claimed, and listed in not_applicable with that reason
-NOT_CLAIMED_YET = ["C01", "C06", "C07", "C08", "C09", "C10", "C11", "C13", "C14", "C15", "C17", "C18", "C19", "C20"]
+NOT_CLAIMED_YET = ["C01", "C06", "C08", "C09", "C11", "C14", "C15", "C17", "C18", "C19", "C20"]
 for _p in NOT_CLAIMED_YET:
     NOT_APPLICABLE.append({"property_id": _p, "reason": "not claimed yet: the simulation check for this property is designed (DESIGN.md section 4) but not finished; it is applicable to the technique and will be claimed when its check passes the determinism and sensitivity gates"})
